@@ -110,10 +110,12 @@ def run(ctx):
     ctx.do(rule_no_hidden_state, "C13.history-independence")
 
 
-def rule_no_param_mutation(ctx):
+def rule_no_param_mutation(ctx, rule_id="C13.no-param-mutation", modules=None, floor=120):
+    """modules: restrict the judged entry points to these module names (other properties reuse the rule for their own
+    'the previous version / the argument is untouched' clause)"""
     run = ctx.run
     prog = ctx.prog
-    R = "C13.no-param-mutation"
+    R = rule_id
     eff = get_effects(prog)
     eps = entry_points(prog)
     for f in eps:
@@ -122,6 +124,8 @@ def rule_no_param_mutation(ctx):
                                                "detect_spec_version", "add")])
     n_params = 0
     for f in sorted(eps, key=lambda x: x.id):
+        if modules is not None and f.module.name not in modules:
+            continue
         s = eff.summary(f)
         params = f.all_param_names()
         for p in params:
@@ -146,11 +150,12 @@ def rule_no_param_mutation(ctx):
                 line=getattr(m.node, "lineno", f.node.lineno), function=f.qualname,
                 expected="arguments are only read (work on a copy)", found=describe(m),
                 path="%s -> %s" % (f.qualname, describe(m)))
-    run.extra["entry_points"] = len(eps)
-    run.extra["argument_parameters_checked"] = n_params
-    run.extra["calls_resolved_for_effects"] = eff.resolved_calls
-    run.extra["calls_assumed_pure (unresolved/external)"] = eff.unresolved_calls
-    run.floor(R, 120)
+    if modules is None:
+        run.extra["entry_points"] = len(eps)
+        run.extra["argument_parameters_checked"] = n_params
+        run.extra["calls_resolved_for_effects"] = eff.resolved_calls
+        run.extra["calls_assumed_pure (unresolved/external)"] = eff.unresolved_calls
+    run.floor(R, floor)
 
 
 COPY_SITES = [
